@@ -12,6 +12,9 @@ from . import terms as T
 from .terms import EngineError, cur
 
 
+_rec = [None]      # active loop recorder (loops.py)
+
+
 def _key(i):
     if isinstance(i, z3.ExprRef):
         return ("z", i.get_id())
@@ -31,6 +34,8 @@ class SymArray:
         self._memo = {}
         self.inv = inv             # optional per-index invariant generator: idx -> BoolRef
         self.dtype = dtype
+        if _rec[0] is not None:
+            _rec[0].on_create(self)
 
     # -- reading -------------------------------------------------------------------
     def norm_index(self, i):
@@ -68,7 +73,7 @@ class SymArray:
             f = self.inv(i)
             if f is not True and f is not None:
                 inr = T.band(T.le(0, i), T.lt(i, self.length))
-                cur().add_fact(T.tz(T.implies(inr, f)))
+                cur().add_fact(T.tz(T.implies(inr, f)), tier=getattr(self, "inv_tier", 0))
         self._memo[k] = v
         return v
 
@@ -77,10 +82,14 @@ class SymArray:
         self._check_base()
         i = self.norm_index(i)
         T.oblige_safety(where + ":index-in-bounds", T.band(T.le(0, i), T.lt(i, self.length)))
+        if _rec[0] is not None:
+            _rec[0].log_read(self, i, T.add(i, 1))
         return self.at(i)
 
     # -- writing -------------------------------------------------------------------
     def _set_fn(self, fn):
+        if _rec[0] is not None:
+            _rec[0].on_write(self)
         self._fn = fn
         self._memo = {}
         self.version += 1
@@ -90,10 +99,11 @@ class SymArray:
         i = self.norm_index(i)
         T.oblige_safety(where + ":index-in-bounds", T.band(T.le(0, i), T.lt(i, self.length)))
         old = self._fn
-        oldinv = self.inv
         v = T._num(v)
         if isinstance(v, (SymArray,)):
             raise EngineError("array stored into an element")
+        if _rec[0] is not None:
+            _rec[0].log_region(self, i, T.add(i, 1))
 
         def fn(t, i=i, v=v, old=old):
             return T.ite(T.eq(t, i), v, old(t))
@@ -103,6 +113,8 @@ class SymArray:
         """a[lo:hi:step] = v   (v scalar or SymArray); bounds already normalised"""
         old = self._fn
         n = slice_len(lo, hi, step)
+        if _rec[0] is not None:
+            _rec[0].log_region(self, lo, hi, step)
         if isinstance(v, SymArray):
             v._check_base()
             T.oblige_safety(where + ":slice-shape-match", T.eq(v.length, n))
@@ -135,6 +147,8 @@ class SymArray:
         """a[idx] = v with idx an IndexTable"""
         if not isinstance(idx, IndexTable):
             raise EngineError("fancy store needs an affine index table")
+        if _rec[0] is not None and _rec[0].preexisting(self):
+            raise EngineError("fancy store inside a symbolic loop")
         old = self._fn
         if isinstance(v, SymArray):
             v._check_base()
@@ -155,6 +169,8 @@ class SymArray:
     # -- derived -------------------------------------------------------------------
     def copy(self):
         self._check_base()
+        if _rec[0] is not None and self._base is None:
+            _rec[0].log_read(self, 0, self.length)
         f = self._fn
         a = SymArray(self.length, self.at, name=self.name, dtype=self.dtype)
         # a copy is a value snapshot: capture the current content
@@ -164,6 +180,7 @@ class SymArray:
 
     def _snapshot_at(self):
         fn, memo, inv, ln = self._fn, self._memo, self.inv, self.length
+        tier = getattr(self, "inv_tier", 0)
 
         def at(i):
             k = _key(i)
@@ -175,7 +192,7 @@ class SymArray:
                 f = inv(i)
                 if f is not True and f is not None:
                     inr = T.band(T.le(0, i), T.lt(i, ln))
-                    cur().add_fact(T.tz(T.implies(inr, f)))
+                    cur().add_fact(T.tz(T.implies(inr, f)), tier=tier)
             memo[k] = v
             return v
         return at
@@ -183,6 +200,8 @@ class SymArray:
     def slice(self, lo, hi, step=1, where="slice"):
         """snapshot of a[lo:hi:step]; bounds normalised by caller (norm_slice)"""
         self._check_base()
+        if _rec[0] is not None:
+            _rec[0].log_read(self, lo, hi)
         at = self._snapshot_at()
         n = slice_len(lo, hi, step)
         if step == 1:
@@ -354,6 +373,8 @@ def elementwise(f, args, name=None, partial=False):
     n = arrs[0].length
     for a in arrs:
         a._check_base()
+        if _rec[0] is not None and a._base is None:
+            _rec[0].log_read(a, 0, a.length)
     for a in arrs[1:]:
         if a.length is not n and not T.same(a.length, n):
             c = T.eq(a.length, n)
